@@ -400,10 +400,25 @@ def rule_f(ctx, ix):
                 bad.append(x)
             if isinstance(x, ast.Delete) and any(isinstance(t, ast.Subscript) and isinstance(t.value, ast.Name) and t.value.id in shared for t in x.targets):
                 bad.append(x)
+        # ... nor overwritten once eval() has started: a store after the eval (or in a finally around it) runs when a nested
+        # evaluation returns, in the middle of the outer eval().  Putting back a value saved before the eval is the exception.
+        evals = [x for x in ast.walk(f.node) if isinstance(x, ast.Call) and isinstance(x.func, ast.Name) and x.func.id == 'eval']
+        if evals:
+            first = min(e.lineno for e in evals)
+            saved_ = {st.targets[0].id for st in walk_no_nested(f.node) if isinstance(st, ast.Assign) and isinstance(st.targets[0], ast.Name)
+                      and st.lineno < first and any(isinstance(v, ast.Name) and v.id in shared for v in ast.walk(st.value))}
+            for st in ast.walk(f.node):
+                if isinstance(st, ast.Assign) and st.lineno > first and any(
+                        isinstance(t, ast.Subscript) and isinstance(t.value, ast.Name) and t.value.id in shared for t in st.targets) \
+                        and not (isinstance(st.value, ast.Name) and st.value.id in saved_):
+                    bad.append(st)
+                if isinstance(st, ast.Call) and isinstance(st.func, ast.Attribute) and st.func.attr in ('update', 'setdefault', '__setitem__') \
+                        and isinstance(st.func.value, ast.Name) and st.func.value.id in shared and st.lineno > first:
+                    bad.append(st)
         ctx.ob(R, f.construct, 'nothing is removed from the namespace shared by nested evaluations', not bad,
-               detail='%s removes an entry from the namespace all parsed expressions share (`%s`): when the expression refers to another '
-                      'parsed expression, the inner evaluation removes `__view` while the outer eval() still needs it - every reference '
-                      'after the nested one raises NameError, on the whole dataset and on every view'
+               detail='%s removes or overwrites an entry of the namespace all parsed expressions share (`%s`) after its eval(): when the expression refers to another '
+                      'parsed expression, the inner evaluation takes `__view` away while the outer eval() still needs it - every reference '
+                      'after the nested one raises NameError or is read on the whole dataset instead of the view'
                       % (f.construct, norm(bad[0]) if bad else ''), where=where(f, bad[0]) if bad else f.where)
 
 
